@@ -430,7 +430,7 @@ func main() {
 			continue
 		}
 		r := prng.ForCase(f.Seed, k)
-		switch r.Weighted([]int{8, 38, 10, 10, 10, 8, 4, 6, 6}) {
+		switch r.Weighted([]int{8, 36, 10, 10, 10, 8, 4, 6, 5, 3}) {
 		case 0:
 			rn.varuintCase(k, r)
 			o.Count("case:varuint")
@@ -467,9 +467,12 @@ func main() {
 		case 7:
 			rn.jsonCase(k, r)
 			o.Count("case:item-json")
-		default:
+		case 8:
 			rn.entryCase(k, r)
 			o.Count("case:entry-points")
+		default:
+			rn.scopesCase(k, r)
+			o.Count("case:json-values")
 		}
 	}
 }
